@@ -588,6 +588,376 @@ theorem sortA_some (l : List Archive) (h : ∀ a ∈ l, a.arch.isSome = true) : 
       · exact ha a h''
   exact this l [] h (by intro a ha; cases ha)
 
+/-! ### the exact sort of short lists: `count_run`, then binary insertion
+
+Nothing here asks tuple `<` to be a strict weak order: `le2_of_true` / `le2_of_false` (what one comparison says about the
+order by name and version class) and the transitivity of `le2` are enough, so the lemmas hold for lists with order-equal
+versions spelled differently too. -/
+
+def AllArch (l : List Archive) : Prop := ∀ a ∈ l, a.arch.isSome = true
+
+theorem ascRun_facts : ∀ (prev : Archive) (l run rest : List Archive), GoodVer prev.version → AllGood l →
+    ascRun prev l = some (run, rest) → run ++ rest = l ∧ Sorted2 (prev :: run)
+  | prev, [], run, rest, _, _, h => by
+    simp only [ascRun, Option.some.injEq, Prod.mk.injEq] at h
+    obtain ⟨rfl, rfl⟩ := h
+    exact ⟨rfl, by simp [Sorted2]⟩
+  | prev, x :: xs, run, rest, hp, hg, h => by
+    have hx := hg x (by simp)
+    unfold ascRun at h
+    cases hc : archiveLt x prev with
+    | none => rw [hc] at h; cases h
+    | some b =>
+      rw [hc] at h
+      cases b with
+      | true =>
+        simp only [Option.some.injEq, Prod.mk.injEq] at h
+        obtain ⟨rfl, rfl⟩ := h
+        exact ⟨rfl, by simp [Sorted2]⟩
+      | false =>
+        simp only [Option.map_eq_some_iff] at h
+        obtain ⟨r, hr, hrr⟩ := h
+        obtain ⟨r1, r2⟩ := r
+        simp only [Prod.mk.injEq] at hrr
+        obtain ⟨rfl, rfl⟩ := hrr
+        obtain ⟨e, hs⟩ := ascRun_facts x xs r1 r2 hx (fun a ha => hg a (by simp [ha])) hr
+        refine ⟨by simp [e], ?_⟩
+        have hpx := le2_of_false x prev hx hp hc
+        unfold Sorted2 at hs ⊢
+        rw [List.pairwise_cons]
+        refine ⟨?_, hs⟩
+        intro z hz
+        rcases List.mem_cons.mp hz with rfl | hz
+        · exact hpx
+        · have hzl : z ∈ xs := by rw [← e]; exact List.mem_append_left _ hz
+          exact le2_trans prev x z hp hx (hg z (by simp [hzl])) hpx ((List.pairwise_cons.mp hs).1 z hz)
+
+/-- a strictly descending run, read backwards, is sorted -/
+theorem descRun_facts : ∀ (prev : Archive) (l run rest : List Archive), GoodVer prev.version → AllGood l →
+    descRun prev l = some (run, rest) → run ++ rest = l ∧ (prev :: run).Pairwise (fun a b => le2 b a)
+  | prev, [], run, rest, _, _, h => by
+    simp only [descRun, Option.some.injEq, Prod.mk.injEq] at h
+    obtain ⟨rfl, rfl⟩ := h
+    exact ⟨rfl, by simp⟩
+  | prev, x :: xs, run, rest, hp, hg, h => by
+    have hx := hg x (by simp)
+    unfold descRun at h
+    cases hc : archiveLt x prev with
+    | none => rw [hc] at h; cases h
+    | some b =>
+      rw [hc] at h
+      cases b with
+      | false =>
+        simp only [Option.some.injEq, Prod.mk.injEq] at h
+        obtain ⟨rfl, rfl⟩ := h
+        exact ⟨rfl, by simp⟩
+      | true =>
+        simp only [Option.map_eq_some_iff] at h
+        obtain ⟨r, hr, hrr⟩ := h
+        obtain ⟨r1, r2⟩ := r
+        simp only [Prod.mk.injEq] at hrr
+        obtain ⟨rfl, rfl⟩ := hrr
+        obtain ⟨e, hs⟩ := descRun_facts x xs r1 r2 hx (fun a ha => hg a (by simp [ha])) hr
+        refine ⟨by simp [e], ?_⟩
+        have hxp := le2_of_true x prev hx hp hc
+        rw [List.pairwise_cons]
+        refine ⟨?_, hs⟩
+        intro z hz
+        rcases List.mem_cons.mp hz with rfl | hz
+        · exact hxp
+        · have hzl : z ∈ xs := by rw [← e]; exact List.mem_append_left _ hz
+          exact le2_trans z x prev (hg z (by simp [hzl])) hx hp ((List.pairwise_cons.mp hs).1 z hz) hxp
+
+theorem countRun_facts (l run rest : List Archive) (hg : AllGood l) (h : countRun l = some (run, rest)) :
+    (run ++ rest).Perm l ∧ Sorted2 run := by
+  match l, h with
+  | [], h =>
+    simp only [countRun, Option.some.injEq, Prod.mk.injEq] at h
+    obtain ⟨rfl, rfl⟩ := h
+    exact ⟨List.Perm.refl _, by simp [Sorted2]⟩
+  | [a], h =>
+    simp only [countRun, Option.some.injEq, Prod.mk.injEq] at h
+    obtain ⟨rfl, rfl⟩ := h
+    exact ⟨List.Perm.refl _, by simp [Sorted2]⟩
+  | a :: b :: tl, h =>
+    have ha := hg a (by simp)
+    have hb := hg b (by simp)
+    have hgt : AllGood tl := fun x hx => hg x (by simp [hx])
+    simp only [countRun] at h
+    cases hc : archiveLt b a with
+    | none => rw [hc] at h; cases h
+    | some c =>
+      rw [hc] at h
+      cases c with
+      | false =>
+        simp only [Option.map_eq_some_iff] at h
+        obtain ⟨r, hr, hrr⟩ := h
+        obtain ⟨r1, r2⟩ := r
+        simp only [Prod.mk.injEq] at hrr
+        obtain ⟨rfl, rfl⟩ := hrr
+        obtain ⟨e, hs⟩ := ascRun_facts b tl r1 r2 hb hgt hr
+        refine ⟨by simp [e], ?_⟩
+        have hab := le2_of_false b a hb ha hc
+        unfold Sorted2 at hs ⊢
+        rw [List.pairwise_cons]
+        refine ⟨?_, hs⟩
+        intro z hz
+        rcases List.mem_cons.mp hz with rfl | hz
+        · exact hab
+        · have hzl : z ∈ tl := by rw [← e]; exact List.mem_append_left _ hz
+          exact le2_trans a b z ha hb (hgt z hzl) hab ((List.pairwise_cons.mp hs).1 z hz)
+      | true =>
+        simp only [Option.map_eq_some_iff] at h
+        obtain ⟨r, hr, hrr⟩ := h
+        obtain ⟨r1, r2⟩ := r
+        simp only [Prod.mk.injEq] at hrr
+        obtain ⟨rfl, rfl⟩ := hrr
+        obtain ⟨e, hs⟩ := descRun_facts b tl r1 r2 hb hgt hr
+        constructor
+        · have h1 : ((a :: b :: r1).reverse ++ r2).Perm ((a :: b :: r1) ++ r2) :=
+            List.Perm.append_right _ (List.reverse_perm _)
+          refine h1.trans ?_
+          simp [e]
+        · have hba := le2_of_true b a hb ha hc
+          have hdesc : (a :: b :: r1).Pairwise (fun x y => le2 y x) := by
+            rw [List.pairwise_cons]
+            refine ⟨?_, hs⟩
+            intro z hz
+            rcases List.mem_cons.mp hz with rfl | hz
+            · exact hba
+            · have hzl : z ∈ tl := by rw [← e]; exact List.mem_append_left _ hz
+              exact le2_trans z b a (hgt z hzl) hb ha ((List.pairwise_cons.mp hs).1 z hz) hba
+          unfold Sorted2
+          rw [List.pairwise_reverse]
+          exact hdesc
+
+/-- the binary search returns a position that splits the sorted prefix around the pivot -/
+theorem bsearch_facts (pivot : Archive) (pre : List Archive) (hp : GoodVer pivot.version) (hg : AllGood pre)
+    (hs : Sorted2 pre) : ∀ (fuel l r pos : Nat), l ≤ r → r ≤ pre.length →
+    (∀ a ∈ pre.take l, le2 a pivot) → (∀ b ∈ pre.drop r, le2 pivot b) →
+    bsearch pivot pre fuel l r = some pos → r - l < fuel →
+    pos ≤ pre.length ∧ (∀ a ∈ pre.take pos, le2 a pivot) ∧ (∀ b ∈ pre.drop pos, le2 pivot b)
+  | 0, l, r, pos, _, _, _, _, _, hf => by omega
+  | fuel + 1, l, r, pos, hlr, hrn, hL, hR, h, hf => by
+    unfold bsearch at h
+    by_cases hlt : l < r
+    · simp only [hlt, if_true] at h
+      obtain ⟨p, hpdef⟩ : ∃ p, l + (r - l) / 2 = p := ⟨_, rfl⟩
+      rw [hpdef] at h
+      have hpl : p < pre.length := by omega
+      have hge : pre[p]? = some (pre[p]'hpl) := List.getElem?_eq_getElem hpl
+      rw [hge] at h
+      simp only at h
+      have hpl' : l ≤ p := by omega
+      have hpr : p < r := by omega
+      have he : GoodVer (pre[p]'hpl).version := hg _ (List.getElem_mem hpl)
+      -- the prefix around the probed element
+      have hsplit : pre = pre.take p ++ pre[p]'hpl :: pre.drop (p + 1) := by
+        rw [← List.drop_eq_getElem_cons hpl, List.take_append_drop]
+      have hpw : (pre.take p ++ pre[p]'hpl :: pre.drop (p + 1)).Pairwise le2 := by rw [← hsplit]; exact hs
+      rw [List.pairwise_append] at hpw
+      obtain ⟨_, hright, hcross⟩ := hpw
+      cases hc : archiveLt pivot (pre[p]'hpl) with
+      | none => rw [hc] at h; cases h
+      | some b =>
+        rw [hc] at h
+        cases b with
+        | true =>
+          simp only at h
+          have hpe := le2_of_true pivot _ hp he hc
+          refine bsearch_facts pivot pre hp hg hs fuel l p pos hpl' (by omega) hL ?_ h (by omega)
+          intro b hb
+          rw [List.drop_eq_getElem_cons hpl] at hb
+          rcases List.mem_cons.mp hb with rfl | hb
+          · exact hpe
+          · exact le2_trans pivot _ b hp he (hg b (List.mem_of_mem_drop hb)) hpe ((List.pairwise_cons.mp hright).1 b hb)
+        | false =>
+          simp only at h
+          have hep := le2_of_false pivot _ hp he hc
+          refine bsearch_facts pivot pre hp hg hs fuel (p + 1) r pos (by omega) hrn ?_ hR h (by omega)
+          intro a ha
+          rw [List.take_succ_eq_append_getElem hpl] at ha
+          rcases List.mem_append.mp ha with ha | ha
+          · exact le2_trans a _ pivot (hg a (List.mem_of_mem_take ha)) he hp (hcross a ha (pre[p]'hpl) List.mem_cons_self) hep
+          · simp only [List.mem_singleton] at ha
+            subst ha; exact hep
+    · simp only [hlt, if_false, Option.some.injEq] at h
+      subst h
+      have : l = r := by omega
+      subst this
+      exact ⟨hrn, hL, hR⟩
+
+theorem binInsert_facts (pre : List Archive) (pivot : Archive) (s : List Archive) (hp : GoodVer pivot.version)
+    (hg : AllGood pre) (hs : Sorted2 pre) (h : binInsert pre pivot = some s) : s.Perm (pivot :: pre) ∧ Sorted2 s := by
+  unfold binInsert at h
+  simp only [Option.map_eq_some_iff] at h
+  obtain ⟨pos, hpos, rfl⟩ := h
+  obtain ⟨hle, hL, hR⟩ := bsearch_facts pivot pre hp hg hs (pre.length + 1) 0 pre.length pos (by omega) (by omega)
+    (by intro a ha; simp at ha) (by intro b hb; simp at hb) hpos (by omega)
+  constructor
+  · have : (pre.take pos ++ pivot :: pre.drop pos).Perm (pivot :: (pre.take pos ++ pre.drop pos)) := List.perm_middle
+    rw [List.take_append_drop] at this
+    exact this
+  · unfold Sorted2 at hs ⊢
+    rw [List.pairwise_append]
+    have hpw : (pre.take pos ++ pre.drop pos).Pairwise le2 := by rw [List.take_append_drop]; exact hs
+    rw [List.pairwise_append] at hpw
+    obtain ⟨h1, h2, h3⟩ := hpw
+    refine ⟨h1, List.pairwise_cons.mpr ⟨hR, h2⟩, ?_⟩
+    intro a ha b hb
+    rcases List.mem_cons.mp hb with rfl | hb
+    · exact hL a ha
+    · exact h3 a ha b hb
+
+theorem foldl_none {α} (f : List Archive → α → Option (List Archive)) :
+    ∀ ys : List α, ys.foldl (fun acc x => acc.bind (f · x)) none = none := by
+  intro ys; induction ys with
+  | nil => rfl
+  | cons y ys ih => simpa using ih
+
+theorem foldl_binInsert_facts : ∀ (xs acc s : List Archive), AllGood xs → AllGood acc → Sorted2 acc →
+    xs.foldl (fun acc x => acc.bind (binInsert · x)) (some acc) = some s → s.Perm (acc ++ xs) ∧ Sorted2 s
+  | [], acc, s, _, _, hs, h => by simp at h; subst h; exact ⟨by simp, hs⟩
+  | x :: xs, acc, s, hgx, hga, hs, h => by
+    simp only [List.foldl_cons, Option.bind_some] at h
+    cases hi : binInsert acc x with
+    | none => rw [hi, foldl_none] at h; cases h
+    | some acc' =>
+      rw [hi] at h
+      have hx := hgx x (by simp)
+      obtain ⟨p1, s1⟩ := binInsert_facts acc x acc' hx hga hs hi
+      have hacc' : AllGood acc' := by
+        intro a ha
+        rcases List.mem_cons.mp (p1.mem_iff.mp ha) with rfl | h'
+        · exact hx
+        · exact hga a h'
+      obtain ⟨p2, s2⟩ := foldl_binInsert_facts xs acc' s (fun a ha => hgx a (by simp [ha])) hacc' s1 h
+      refine ⟨?_, s2⟩
+      refine p2.trans ?_
+      have : (acc' ++ xs).Perm ((x :: acc) ++ xs) := List.Perm.append_right _ p1
+      refine this.trans ?_
+      simp only [List.cons_append]
+      exact (List.perm_middle).symm
+
+theorem binSort_facts (l s : List Archive) (hg : AllGood l) (h : binSort l = some s) : s.Perm l ∧ Sorted2 s := by
+  unfold binSort at h
+  cases hc : countRun l with
+  | none => rw [hc] at h; cases h
+  | some rr =>
+    obtain ⟨run, rest⟩ := rr
+    rw [hc] at h
+    simp only at h
+    obtain ⟨hperm, hsorted⟩ := countRun_facts l run rest hg hc
+    have hgrun : AllGood run := fun a ha => hg a (hperm.mem_iff.mp (List.mem_append_left _ ha))
+    have hgrest : AllGood rest := fun a ha => hg a (hperm.mem_iff.mp (List.mem_append_right _ ha))
+    obtain ⟨p, s2⟩ := foldl_binInsert_facts rest run s hgrest hgrun hsorted h
+    exact ⟨p.trans hperm, s2⟩
+
+theorem bsearch_some (pivot : Archive) (pre : List Archive) (hp : pivot.arch.isSome = true) (hg : AllArch pre) :
+    ∀ (fuel l r : Nat), ∃ pos, bsearch pivot pre fuel l r = some pos
+  | 0, l, _ => ⟨l, rfl⟩
+  | fuel + 1, l, r => by
+    unfold bsearch
+    by_cases hlt : l < r
+    · simp only [hlt, if_true]
+      cases hge : pre[l + (r - l) / 2]? with
+      | none => exact ⟨l, rfl⟩
+      | some e =>
+        have hem : e ∈ pre := List.mem_of_getElem? hge
+        obtain ⟨b, hb⟩ := archiveLt_some pivot e hp (hg e hem)
+        simp only [hb]
+        cases b with
+        | true => exact bsearch_some pivot pre hp hg fuel l _
+        | false => exact bsearch_some pivot pre hp hg fuel _ r
+    · simp only [hlt, if_false]; exact ⟨l, rfl⟩
+
+theorem ascRun_some : ∀ (prev : Archive) (l : List Archive), prev.arch.isSome = true → AllArch l → ∃ r, ascRun prev l = some r
+  | _, [], _, _ => ⟨_, rfl⟩
+  | prev, x :: xs, hp, hg => by
+    obtain ⟨b, hb⟩ := archiveLt_some x prev (hg x (by simp)) hp
+    unfold ascRun
+    rw [hb]
+    cases b with
+    | true => exact ⟨_, rfl⟩
+    | false =>
+      obtain ⟨r, hr⟩ := ascRun_some x xs (hg x (by simp)) (fun a ha => hg a (by simp [ha]))
+      simp only [hr, Option.map_some]
+      exact ⟨_, rfl⟩
+
+theorem descRun_some : ∀ (prev : Archive) (l : List Archive), prev.arch.isSome = true → AllArch l → ∃ r, descRun prev l = some r
+  | _, [], _, _ => ⟨_, rfl⟩
+  | prev, x :: xs, hp, hg => by
+    obtain ⟨b, hb⟩ := archiveLt_some x prev (hg x (by simp)) hp
+    unfold descRun
+    rw [hb]
+    cases b with
+    | false => exact ⟨_, rfl⟩
+    | true =>
+      obtain ⟨r, hr⟩ := descRun_some x xs (hg x (by simp)) (fun a ha => hg a (by simp [ha]))
+      simp only [hr, Option.map_some]
+      exact ⟨_, rfl⟩
+
+theorem countRun_some (l : List Archive) (hg : AllArch l) : ∃ r, countRun l = some r := by
+  match l with
+  | [] => exact ⟨_, rfl⟩
+  | [a] => exact ⟨_, rfl⟩
+  | a :: b :: tl =>
+    obtain ⟨c, hc⟩ := archiveLt_some b a (hg b (by simp)) (hg a (by simp))
+    simp only [countRun, hc]
+    cases c with
+    | true =>
+      obtain ⟨r, hr⟩ := descRun_some b tl (hg b (by simp)) (fun x hx => hg x (by simp [hx]))
+      simp only [hr, Option.map_some]
+      exact ⟨_, rfl⟩
+    | false =>
+      obtain ⟨r, hr⟩ := ascRun_some b tl (hg b (by simp)) (fun x hx => hg x (by simp [hx]))
+      simp only [hr, Option.map_some]
+      exact ⟨_, rfl⟩
+
+theorem binSort_some (l : List Archive) (ha : AllArch l) (hg : AllGood l) : ∃ s, binSort l = some s := by
+  obtain ⟨rr, hc⟩ := countRun_some l ha
+  obtain ⟨run, rest⟩ := rr
+  obtain ⟨hperm, _⟩ := countRun_facts l run rest hg hc
+  unfold binSort
+  rw [hc]
+  simp only
+  have key : ∀ (xs acc : List Archive), AllArch xs → AllArch acc →
+      ∃ s, xs.foldl (fun acc x => acc.bind (binInsert · x)) (some acc) = some s ∧ AllArch s := by
+    intro xs
+    induction xs with
+    | nil => intro acc _ h; exact ⟨acc, rfl, h⟩
+    | cons x xs ih =>
+      intro acc hx hacc
+      obtain ⟨pos, hpos⟩ := bsearch_some x acc (hx x (by simp)) hacc (acc.length + 1) 0 acc.length
+      have hi : binInsert acc x = some (acc.take pos ++ x :: acc.drop pos) := by
+        unfold binInsert; rw [hpos]; rfl
+      simp only [List.foldl_cons, Option.bind_some, hi]
+      apply ih _ (fun a h => hx a (by simp [h]))
+      intro a h1
+      rcases List.mem_append.mp h1 with h2 | h2
+      · exact hacc a (List.mem_of_mem_take h2)
+      · rcases List.mem_cons.mp h2 with rfl | h3
+        · exact hx a (by simp)
+        · exact hacc a (List.mem_of_mem_drop h3)
+  obtain ⟨s, hs, _⟩ := key rest run
+    (fun a h => ha a (hperm.mem_iff.mp (List.mem_append_right _ h)))
+    (fun a h => ha a (hperm.mem_iff.mp (List.mem_append_left _ h)))
+  exact ⟨s, hs⟩
+
+/-- `sorted()` of the model answers with a permutation sorted by name and version class: always below 64 archives,
+and from 64 on when tuple `<` is a strict weak order on the list -/
+theorem sortPy_ok (ps : List Archive) (h : ps.length < 64 ∨ inModel ps = true) (ha : AllArch ps) (hg : AllGood ps) :
+    ∃ s, sortPy ps = .ok s ∧ s.Perm ps ∧ Sorted2 s := by
+  unfold sortPy
+  by_cases hlen : ps.length < 64
+  · obtain ⟨s, hs⟩ := binSort_some ps ha hg
+    obtain ⟨p, s2⟩ := binSort_facts ps s hg hs
+    exact ⟨s, by simp [hlen, hs], p, s2⟩
+  · rcases h with h | h
+    · exact absurd h hlen
+    · obtain ⟨s, hs⟩ := sortA_some ps ha
+      exact ⟨s, by simp [hlen, h, hs], sortA_perm ps s hs, sortA_sorted2 ps s hg hs⟩
+
 /-! ### a latest archive is a maximum of the inputs of its name -/
 
 theorem isMax_of (ps : List Archive) (hg : AllGood ps) (m : Archive) (hm : m ∈ ps)
@@ -625,7 +995,8 @@ def latestOf (ng : Str × List Archive) : Option (Str × Archive) := ng.2.getLas
 that are different but order-equal), the single-name variant returns an input no input of that name exceeds, or raises
 ValueError when several names are mixed, and the per-name variant maps exactly the names present, each once, each to
 such a maximum of its name -/
-theorem soundC (fns : List Str) (hin : ∀ ps, fns.mapM debFromFilename = .ok ps → inModel ps = true) :
+theorem soundC (fns : List Str)
+    (hin : ∀ ps, fns.mapM debFromFilename = .ok ps → ps.length < 64 ∨ inModel ps = true) :
     holdsOnC fns (modelC fns) = true := by
   unfold holdsOnC
   cases hm : fns.mapM toTup with
@@ -641,9 +1012,7 @@ theorem soundC (fns : List Str) (hin : ∀ ps, fns.mapM debFromFilename = .ok ps
         cases hf : fns with
         | nil => rw [hf, List.mapM_nil] at hm; cases hm; simp at hie'
         | cons _ _ => rfl
-      obtain ⟨s, hs⟩ := sortA_some ps harch
-      have hperm := sortA_perm ps s hs
-      have hsorted := sortA_sorted2 ps s hgood hs
+      obtain ⟨s, hs, hperm, hsorted⟩ := sortPy_ok ps (hin ps hps) harch hgood
       have hgs : AllGood s := fun a ha => hgood a (hperm.mem_iff.mp ha)
       have R := groupRuns_runs s hsorted
       have hnames : inputs.map (·.1) = ps.map (·.name) := by
@@ -664,10 +1033,10 @@ theorem soundC (fns : List Str) (hin : ∀ ps, fns.mapM debFromFilename = .ok ps
       -- the two results of the model
       have hL1 : findLatestVersion fns = if (dedupNames (s.map (·.name))).length > 1 then .error .valueError else .ok s.getLast? := by
         unfold findLatestVersion
-        simp only [hfne, Bool.false_eq_true, if_false, hps, hin ps hps, Bool.not_true, hs]
+        simp only [hfne, Bool.false_eq_true, if_false, hps, hs]
       have hL2 : findLatestVersions fns = .ok (some ((groupRuns s).filterMap latestOf)) := by
         unfold findLatestVersions
-        simp only [hfne, Bool.false_eq_true, if_false, hps, hin ps hps, Bool.not_true, hs]
+        simp only [hfne, Bool.false_eq_true, if_false, hps, hs]
         rfl
       -- a latest archive of a run is a maximum of the inputs of its name
       have hrun : ∀ ng ∈ groupRuns s, ∃ m, ng.2.getLast? = some m ∧ m.name = ng.1 ∧ m ∈ ps ∧
@@ -735,7 +1104,22 @@ theorem soundC (fns : List Str) (hin : ∀ ps, fns.mapM debFromFilename = .ok ps
             apply hn
             rw [hnames]
             exact List.mem_map.mpr ⟨a, ha, rfl⟩
-          obtain ⟨hmp, hmax⟩ := last_is_max n ps s m hgn hs hm
+          obtain ⟨hmp, hmax⟩ : m ∈ ps ∧ ∀ a ∈ ps, vle a m := by
+            have hmem : m ∈ s := List.mem_of_getLast? hm
+            refine ⟨hperm.mem_iff.mp hmem, ?_⟩
+            intro a ha
+            have has : a ∈ s := hperm.mem_iff.mpr ha
+            obtain ⟨init, hinit⟩ : ∃ init, s = init ++ [m] := List.getLast?_eq_some_iff.mp hm
+            have hso := hsorted
+            unfold Sorted2 at hso
+            rw [hinit, List.pairwise_append] at hso
+            rw [hinit] at has
+            rcases List.mem_append.mp has with h2 | h2
+            · have hnm : a.name = m.name := by rw [(hgn a ha).1, (hgn m (hperm.mem_iff.mp hmem)).1]
+              exact le2_same a m hnm (hso.2.2 a h2 m (by simp))
+            · have : a = m := by simpa using h2
+              subst this
+              exact vle_refl a a (hgood a ha) rfl
           simp only [hm, Except.map, Option.map_some]
           rw [← hmap]
           exact isMax_of ps hgood m hmp (fun a ha _ => hmax a ha)
@@ -802,6 +1186,32 @@ end Props.C17C
 namespace Props.C17C
 open Py Model.Package Props.C17
 
+theorem mapM_ok_length {α β ε} (f : α → Except ε β) : ∀ (l : List α) (r : List β), l.mapM f = .ok r → r.length = l.length
+  | [], r, h => by
+    rw [List.mapM_nil] at h
+    cases h; rfl
+  | a :: l, r, h => by
+    rw [List.mapM_cons] at h
+    cases hf : f a with
+    | error e => rw [hf] at h; cases h
+    | ok b =>
+      cases hl : l.mapM f with
+      | error e => rw [hf, hl] at h; cases h
+      | ok bs =>
+        rw [hf, hl] at h
+        cases h
+        simp [mapM_ok_length f l bs hl]
+
+/-- **C17, selection, for every list of fewer than 64 binary package file names** — order-equal versions spelled
+differently included: the model runs `sorted()` exactly as CPython does below 64 elements -/
+theorem soundC_short (fns : List Str) (h : fns.length < 64) : holdsOnC fns (modelC fns) = true :=
+  soundC fns (fun ps hps => Or.inl (by rw [mapM_ok_length _ fns ps hps]; exact h))
+
+/-- **C17, selection, for lists of any length** without two order-equal versions of one name spelled differently -/
+theorem soundC_weak (fns : List Str) (hin : ∀ ps, fns.mapM debFromFilename = .ok ps → inModel ps = true) :
+    holdsOnC fns (modelC fns) = true :=
+  soundC fns (fun ps hps => Or.inr (hin ps hps))
+
 /-- non-vacuity: three names, several versions each, in scrambled order: the file names parse, the parsed archives are in
 the model (so the hypothesis of `soundC` holds: `mapM` is a function) -/
 def sampleNames : List Str :=
@@ -811,6 +1221,16 @@ def sampleNames : List Str :=
 example :
     (match sampleNames.mapM debFromFilename with | .ok ps => inModel ps | .error _ => false) = true ∧
     (sampleNames.mapM toTup).isSome = true := by
+  decide +kernel
+
+/-- a short list on which tuple `<` is NOT a strict weak order (three order-equal spellings of one version): outside
+`soundC_weak`, inside `soundC_short` -/
+def tieNames : List Str :=
+  ["a_1.0_amd64.deb".toList, "a_1.00_all.deb".toList, "a_0:1.0_i386.deb".toList, "a_1.0_all.deb".toList]
+
+example :
+    (match tieNames.mapM debFromFilename with | .ok ps => inModel ps | .error _ => true) = false ∧
+    (tieNames.mapM toTup).isSome = true ∧ tieNames.length < 64 := by
   decide +kernel
 
 end Props.C17C
